@@ -135,6 +135,145 @@ def c06(ctx):
                        "used as allowed list; non-trivial = more than one distinct term")
 
 
+# --------------------------------------------------------------------------- C02 / C11
+def spellings(roles, x, kinds):
+    out = []
+    for k in kinds:
+        if k == "plain":
+            out.append(x)
+        elif k == "plus" and not x.endswith("-or-later"):
+            out.append(x + "+")
+        elif k == "only" and roles.suffixable(x):
+            out.append(x + "-only")
+        elif k == "orlater" and roles.suffixable(x):
+            out.append(x + "-or-later")
+        elif k == "lower":
+            out.append(x.lower())
+        elif k == "upper":
+            out.append(x.upper())
+        elif k == "lowerplus" and not x.endswith("-or-later"):
+            out.append(x.lower() + "+")
+    return out
+
+
+def natural_families(ctx):
+    """listed ids grouped by shape (python mirror of Versions.tla, used only to CHOOSE texts; the oracle is the model's)"""
+    import re
+    ver = re.compile(r"^\d+(\.\d+)*[a-z]?$")
+    fams = {}
+    for x in ctx.tables["active"] + ctx.tables["deprecated"]:
+        if x.endswith("+"):
+            continue
+        b = x
+        for sfx in ("-or-later", "-only"):
+            if b.endswith(sfx):
+                b = b[: -len(sfx)]
+        if b.endswith("-only"):
+            b = b[:-5]
+        cs = b.split("-")
+        vi = [i for i, c in enumerate(cs) if ver.match(c)]
+        if len(vi) != 1:
+            continue
+        key = tuple("*" if i == vi[0] else c for i, c in enumerate(cs))
+        fams.setdefault(key, []).append(x)
+    return {k: v for k, v in fams.items() if len({y for y in v}) >= 2}
+
+
+def pair_params(ctx, rng, quick, with_cross=True):
+    roles = Roles(ctx, rng)
+    t = ctx.tables
+    ids = [x for x in t["active"] + t["deprecated"] if not x.endswith("+")]
+    excs = rng.sample(t["exceptions"], 2)
+    texts, blocks = [], []
+
+    def block(ta, tb):
+        a0 = len(texts) + 1
+        texts.extend(ta)
+        a1 = len(texts)
+        if tb is ta:
+            blocks.append((a0, a1, a0, a1))
+        else:
+            b0 = len(texts) + 1
+            texts.extend(tb)
+            blocks.append((a0, a1, b0, len(texts)))
+
+    # (b) every table family and every natural family: full product of members x spellings x exceptions
+    fams = [[x for st in fam for x in st if x in ids] for fam in t["ranges"]]
+    fams += [v for v in natural_families(ctx).values()]
+    kinds = ["plain", "plus", "only", "orlater"] if quick else ["plain", "plus", "only", "orlater", "lower", "upper", "lowerplus"]
+    seen = set()
+    for fam in fams:
+        key = tuple(sorted(set(fam)))
+        if key in seen:
+            continue
+        seen.add(key)
+        if quick and len(key) > 12:
+            key = tuple(rng.sample(key, 12))
+        base = [s for x in key for s in spellings(roles, x, kinds)]
+        tx = list(base)
+        tx += [s + " WITH " + excs[0] for s in (base if not quick else base[::2])]
+        if not quick:
+            tx += [s + " WITH " + excs[1] for s in base[::3]]
+        block(tx, tx)
+    # (a) cross pairs: plain x plain and plus x plus
+    if with_cross:
+        pick = ids if not quick else rng.sample(ids, 110)
+        p = [x for x in pick]
+        block(p, p)
+        pp = [x + "+" for x in pick if not x.endswith("-or-later")]
+        block(pp, pp)
+    # (c) refs against everything sampled
+    refs = ["LicenseRef-a", "LicenseRef-A", "LicenseRef-b", "DocumentRef-d:LicenseRef-a", "DocumentRef-e:LicenseRef-a", "DocumentRef-d:LicenseRef-b"]
+    some = rng.sample(ids, 12) + [x + "+" for x in rng.sample([y for y in ids if not y.endswith("-or-later")], 6)]
+    both = refs + some + [some[0] + " WITH " + excs[0]]
+    block(both, both)
+    return texts, blocks
+
+
+def run_pairs(ctx, name, rng, quick, with_cross=True):
+    texts, blocks = pair_params(ctx, rng, quick, with_cross)
+    ctx.write_params("MC_Pairs_P", {"TextsA": tla_seq(texts), "TextsB": "TextsA",
+                                    "Blocks": "<<" + ", ".join("<<%d, %d, %d, %d>>" % b for b in blocks) + ">>"})
+    npairs = sum((b[1] - b[0] + 1) * (b[3] - b[2] + 1) for b in blocks)
+    ctx.notes.append("%s: %d texts, %d blocks, %d ordered pairs" % (name, len(texts), len(blocks), npairs))
+    r = ctx.run_tlc(name, "MC_Pairs", "MC_Pairs", timeout=3000, extra=["-continue"])
+    if r["summary"]["byKind"].get("pair:table", 0) != npairs:
+        raise Infra("%s: %d pairs planned, %s replayed" % (name, npairs, r["summary"]["byKind"].get("pair:table")))
+    return r
+
+
+def c02(ctx):
+    rng = random.Random(ctx.seed)
+    r = run_pairs(ctx, "pairs", rng, quick=ctx.tier != "thorough")
+    ctx.drive("trace", "single", 1500 if ctx.tier == "thorough" else 400)
+    ctx.validate_trace("trace")
+    viol = sorted(set(__import__("re").findall(r"Invariant (\w+) is violated", r["log"])))
+    if viol:
+        ctx.notes.append("model-level invariants violated on the shipped tables: %s" % viol)
+        if set(viol) - {"PlusNatural"} and not [m for m in ctx.mismatches if m["what"] in ("match", "verdict")]:
+            raise Infra("model-level invariants %s failed but the real code agrees with the model's predictions" % viol)
+    return finish(ctx, relevant={"match", "verdict"},
+                  rule="ordered pairs of single-term texts built from the shipped tables (every table family and natural family x spellings x "
+                       "exceptions, cross pairs of listed ids, LicenseRefs); TLC: operational matcher = C02's rule, symmetry, reflexivity, "
+                       "license/ref separation; each pair replayed as Satisfies(a, [b]); non-trivial = the model predicts a match")
+
+
+def c11(ctx):
+    rng = random.Random(ctx.seed)
+    ctx.run_tlc("ranges", "MC_Ranges", "MC_Ranges", workers=4, timeout=1200)
+    nf = len(ctx.tables["ranges"])
+    r = run_pairs(ctx, "pairs", rng, quick=ctx.tier != "thorough")
+    ctx.drive("trace", "single", 1200 if ctx.tier == "thorough" else 300)
+    ctx.validate_trace("trace")
+    return finish(ctx, relevant={"plus-natural-order", "plus-natural-order-duplicate-position", "match-duplicate-position",
+                                 "verdict-duplicate-position", "table-Listed", "table-OnePosition", "table-OneShape",
+                                 "table-Ascending", "table-Complete", "table-Disjoint"},
+                  rule="the shipped family table (one TLC state per family, six well-formedness clauses) + ordered pairs of ids/spellings of "
+                       "every table family and natural family and cross-family pairs, expected answer from the NATURAL version order; each "
+                       "pair replayed as Satisfies(a, [b]); non-trivial = a match is expected",
+                  extra_cov={"families_in_table": nf})
+
+
 # --------------------------------------------------------------------------- C05
 def c05(ctx):
     rng = random.Random(ctx.seed)
@@ -157,7 +296,7 @@ def c05(ctx):
                        "non-trivial = accepted by the grammar")
 
 
-CHECKS = {"C01": c01, "C05": c05, "C06": c06}
+CHECKS = {"C01": c01, "C02": c02, "C05": c05, "C06": c06, "C11": c11}
 
 MC = "model_checking"
 INFO = {
